@@ -140,7 +140,9 @@ func c02Random(c *Case) {
 	g := c.G()
 	dg := c.GShared("doc", int64(c.Index/6))
 	var d *xdoc.Doc
-	if dg.Chance(0.3) {
+	if (c.Index/6)%8 == 5 {
+		d = dg.DeepTree()
+	} else if dg.Chance(0.3) {
 		d = dg.WideTree(4, 5)
 	} else {
 		o := xgen.DefaultTree()
